@@ -257,6 +257,7 @@ fn script_trace(body: &[u8], tags: &mut BTreeSet<String>) {
                 match r {
                     None => {
                         if st == S::DblEscEnd {
+                            tags.insert("ss:DblEscEnd-matched".to_string());
                             p += 7;
                             st = S::Esc;
                             continue;
@@ -522,6 +523,7 @@ const FRAGMENTS: &[&[u8]] = &[
 const SCRIPT_FRAGMENTS: &[&[u8]] = &[
     b"<!--", b"-->", b"<script", b"<script>", b"<script ", b"</script", b"</script>", b"</script ", b"<SCRIPT>", b"</SCRIPT>", b"<!-", b"--", b"-", b"<", b"/",
     b">", b" ", b"x", b"<a", b"</", b"</s", b"<s", b"<scrip", b"<scriptx", b"</scriptx", b"!", b"<!--<script>", b"</script>-->", b"1<2", b"\xc3\xa9",
+    b"<!-- -", b"x-", b"-x", b"<!--<", b"<!--<s", b"<!--<script>-", b"<!--<script>--", b"<!--<script><", b"<!--<script></", b"<!--x-<", b"<!--<script>x-<",
 ];
 
 const CONTEXTS: &[&str] = &[
@@ -578,6 +580,14 @@ fn gen_markup(rng: &mut Rng) -> Vec<u8> {
             break;
         }
         s.extend_from_slice(piece);
+    }
+    // cut script bodies at an arbitrary character boundary: reaches the EOF exit of every script state
+    if script_mode && rng.chance(1, 2) && s.len() > 9 {
+        let mut cut = 8 + rng.below(s.len() - 8);
+        while cut > 8 && (s[cut] & 0xc0) == 0x80 {
+            cut -= 1;
+        }
+        s.truncate(cut);
     }
     s
 }
